@@ -391,7 +391,7 @@ fn twin_after(ed: &mut Editor, op: &Op, out: &mut String) {
                 .entries()
                 .map(|(k, p)| Entry { key: k, text: p.as_str().to_string(), freq: p.freq(), time: p.last_used().unwrap_or(0) })
                 .collect();
-            let scratch = std::env::temp_dir().join(format!("vharness-ed-twin-{}", std::process::id()));
+            let scratch = std::env::temp_dir().join(format!("vharness-ed-{}", std::process::id())).join("twin");
             let _ = std::fs::create_dir_all(&scratch);
             let mut tw = build_editor(&setup, &scratch);
             tw.set_editor_options(ed.editor_options());
